@@ -93,17 +93,21 @@ __CPROVER_requires(1)
 __CPROVER_ensures(1)
 __CPROVER_assigns();
 
-/* The 400-year shift (zones with a footer, extended_) is outside these goals: every kernel contract requires !extended_, and the two
- * helpers of the shifted branches get the precondition "extended_" so that reaching them is itself a failed obligation.  Their bodies are
- * NOT verified and their postconditions are empty (nothing is ever concluded from them). */
-civil_lookup TimeLocal(const TimeZoneInfo* self, fields cs, year_t c4_shift)
-__CPROVER_requires(__CPROVER_is_fresh(self, sizeof(TimeZoneInfo)) && self->extended_)
-__CPROVER_ensures(1)
-__CPROVER_assigns();
+/* The 400-year shift (zones with a footer) is outside the BreakTime / MakeTime goals: their contracts exclude the shifted branches, and YearShift -
+ * called only there - has the precondition "gz_extended" (a ghost flag that is false in every goal), so that reaching it is itself a failed obligation.
+ * YearShift's body is NOT verified and its postcondition is empty (nothing is ever concluded from it). */
 extern bool gz_extended;     /* ghost: true only in the (excluded) extended_ branches */
 fields YearShift(fields cs, year_t shift)
 __CPROVER_requires(gz_extended)
 __CPROVER_ensures(1)
+__CPROVER_assigns();
+
+/* "changes that alter nothing": two types are equivalent when they are the same type or agree in offset, DST flag and abbreviation
+ * (abbreviations are identified by their index into the zone's abbreviation string) */
+#define EQUIV_TY(z, a, b) ((a) == (b) || (TY(z, a).utc_offset == TY(z, b).utc_offset && TY(z, a).is_dst == TY(z, b).is_dst && TY(z, a).abbr_index == TY(z, b).abbr_index))
+bool EquivTransitions(const TimeZoneInfo* self, uint_fast8_t tt1_index, uint_fast8_t tt2_index)
+__CPROVER_requires(ZSHAPE_TY(self) && tt1_index < NTY(self) && tt2_index < NTY(self))
+__CPROVER_ensures(RV == (EQUIV_TY(self, tt1_index, tt2_index) ? 1 : 0))
 __CPROVER_assigns();
 
 /* ---- kernel ---- */
@@ -234,14 +238,22 @@ static inline const Transition* valg_upper_bound_Transition_ByCivilTime(const Tr
 #define SKIP_IS(r, tr, cs) ((r).kind == KIND_SKIPPED && (Z)(r).pre == PRE_OF(tr, cs) && (r).trans == (tr).unix_time && (Z)(r).post == POST_OF(tr, cs))
 #define REPEAT_IS(r, tr, cs) ((r).kind == KIND_REPEATED && (Z)(r).pre == PRE_OF(tr, cs) && (r).trans == (tr).unix_time && (Z)(r).post == POST_OF(tr, cs))
 
-civil_lookup MakeTime(const TimeZoneInfo* self, fields cs)
-__CPROVER_requires(ZSHAPE(self) && !self->extended_ && !gz_extended && OVALID(cs))
-__CPROVER_requires(WFI(self, 0) && WFI(self, NTR(self) - 1) && TYWF(self, DEFTY(self)) && TYWF(self, TR(self, NTR(self) - 1).type_index))
-__CPROVER_requires(TR(self, 0).unix_time < 0 && TR(self, NTR(self) - 1).unix_time >= 0 && MARGIN(self, 0) && MARGIN(self, NTR(self) - 1))
-/* instance of the civil-time order that Load checks: the first entry shows an earlier civil second than the last */
-__CPROVER_requires(NTR(self) > 1 ? LEXLT(TR(self, 0).civil_sec, TR(self, NTR(self) - 1).civil_sec) : 1)
+/* what MakeTime needs of the table (shared with TimeLocal, which calls it on a civil second of the recorded years) */
+#define MT_NOT_SHIFTED(z, cs) (!(z)->extended_ || (cs).y <= (z)->last_year_)
+#define MT_REQUIRES(self, cs) \
+__CPROVER_requires(ZSHAPE(self) && MT_NOT_SHIFTED(self, cs) && !gz_extended && OVALID(cs)) \
+__CPROVER_requires(WFI(self, 0) && WFI(self, NTR(self) - 1) && TYWF(self, DEFTY(self)) && TYWF(self, TR(self, NTR(self) - 1).type_index)) \
+__CPROVER_requires(TR(self, 0).unix_time < 0 && TR(self, NTR(self) - 1).unix_time >= 0 && MARGIN(self, 0) && MARGIN(self, NTR(self) - 1)) \
+/* instance of the civil-time order that Load checks: the first entry shows an earlier civil second than the last */ \
+__CPROVER_requires(NTR(self) > 1 ? LEXLT(TR(self, 0).civil_sec, TR(self, NTR(self) - 1).civil_sec) : 1) \
 __CPROVER_requires(MT_MIDDLE(self, cs) ? (CBRACKET(self, gz_j, cs) && WFI(self, gz_j) && WFI(self, gz_j - 1) && MARGIN(self, gz_j) && MARGIN(self, gz_j - 1) && \
-                    TR(self, gz_j - 1).unix_time < TR(self, gz_j).unix_time) : 1)
+                    TR(self, gz_j - 1).unix_time < TR(self, gz_j).unix_time) : 1) \
+/* uniqueness of the civil bracket: a hint that brackets cs is the same bracket */ \
+__CPROVER_requires((0 < gz_hint && gz_hint < NTR(self) && !LEXLT(cs, TR(self, gz_hint - 1).civil_sec) && LEXLT(cs, TR(self, gz_hint).civil_sec)) ? gz_hint == gz_j : 1)
+
+civil_lookup MakeTime(const TimeZoneInfo* self, fields cs)
+__CPROVER_requires(1)   /* (keeps the function recognisable as contracted to tools/vdriver.py) */
+MT_REQUIRES(self, cs)
 /* case split of the proof (exhaustive: MT_BEFORE / MT_AFTER / MT_MIDDLE = neither): one goal per case, selected by -DMT_CASE */
 #if defined(MT_CASE) && MT_CASE == 1
 __CPROVER_requires(MT_BEFORE(self, cs))
@@ -250,18 +262,41 @@ __CPROVER_requires(!MT_BEFORE(self, cs) && MT_AFTER(self, cs))
 #elif defined(MT_CASE) && MT_CASE == 3
 __CPROVER_requires(MT_MIDDLE(self, cs))
 #endif
-/* uniqueness of the civil bracket: a hint that brackets cs is the same bracket */
-__CPROVER_requires((0 < gz_hint && gz_hint < NTR(self) && !LEXLT(cs, TR(self, gz_hint - 1).civil_sec) && LEXLT(cs, TR(self, gz_hint).civil_sec)) ? gz_hint == gz_j : 1)
 /* before the first transition */
 __CPROVER_ensures((MT_BEFORE(self, cs) && !LEXLT(TR(self, 0).prev_civil_sec, cs)) ? UNIQ_IS(RV, SAT64(READ_IN(cs, TY(self, DEFTY(self)).utc_offset))) : 1)
-__CPROVER_ensures((MT_BEFORE(self, cs) && LEXLT(TR(self, 0).prev_civil_sec, cs)) ? SKIP_IS(RV, TR(self, 0), cs) : 1)
+__CPROVER_ensures((MT_BEFORE(self, cs) && LEXLT(TR(self, 0).prev_civil_sec, cs)) ? (RV.kind == KIND_SKIPPED && RV.trans == (TR(self, 0)).unix_time) : 1)
+__CPROVER_ensures((MT_BEFORE(self, cs) && LEXLT(TR(self, 0).prev_civil_sec, cs)) ? ((Z)RV.pre == PRE_OF(TR(self, 0), cs)) : 1)
+__CPROVER_ensures((MT_BEFORE(self, cs) && LEXLT(TR(self, 0).prev_civil_sec, cs)) ? ((Z)RV.post == POST_OF(TR(self, 0), cs)) : 1)
 /* after the last transition */
 __CPROVER_ensures((MT_AFTER(self, cs) && LEXLT(TR(self, NTR(self) - 1).prev_civil_sec, cs)) ? UNIQ_IS(RV, SAT64(READ_IN(cs, TY(self, TR(self, NTR(self) - 1).type_index).utc_offset))) : 1)
-__CPROVER_ensures((MT_AFTER(self, cs) && !LEXLT(TR(self, NTR(self) - 1).prev_civil_sec, cs)) ? REPEAT_IS(RV, TR(self, NTR(self) - 1), cs) : 1)
+__CPROVER_ensures((MT_AFTER(self, cs) && !LEXLT(TR(self, NTR(self) - 1).prev_civil_sec, cs)) ? (RV.kind == KIND_REPEATED && RV.trans == (TR(self, NTR(self) - 1)).unix_time) : 1)
+__CPROVER_ensures((MT_AFTER(self, cs) && !LEXLT(TR(self, NTR(self) - 1).prev_civil_sec, cs)) ? ((Z)RV.pre == PRE_OF(TR(self, NTR(self) - 1), cs)) : 1)
+__CPROVER_ensures((MT_AFTER(self, cs) && !LEXLT(TR(self, NTR(self) - 1).prev_civil_sec, cs)) ? ((Z)RV.post == POST_OF(TR(self, NTR(self) - 1), cs)) : 1)
 /* between two transitions: skipped at j, repeated at j-1, or unique in the type of j-1 */
-__CPROVER_ensures((MT_MIDDLE(self, cs) && LEXLT(TR(self, gz_j).prev_civil_sec, cs)) ? SKIP_IS(RV, TR(self, gz_j), cs) : 1)
-__CPROVER_ensures((MT_MIDDLE(self, cs) && !LEXLT(TR(self, gz_j).prev_civil_sec, cs) && !LEXLT(TR(self, gz_j - 1).prev_civil_sec, cs)) ? REPEAT_IS(RV, TR(self, gz_j - 1), cs) : 1)
+__CPROVER_ensures((MT_MIDDLE(self, cs) && LEXLT(TR(self, gz_j).prev_civil_sec, cs)) ? (RV.kind == KIND_SKIPPED && RV.trans == (TR(self, gz_j)).unix_time) : 1)
+__CPROVER_ensures((MT_MIDDLE(self, cs) && LEXLT(TR(self, gz_j).prev_civil_sec, cs)) ? ((Z)RV.pre == PRE_OF(TR(self, gz_j), cs)) : 1)
+__CPROVER_ensures((MT_MIDDLE(self, cs) && LEXLT(TR(self, gz_j).prev_civil_sec, cs)) ? ((Z)RV.post == POST_OF(TR(self, gz_j), cs)) : 1)
+__CPROVER_ensures((MT_MIDDLE(self, cs) && !LEXLT(TR(self, gz_j).prev_civil_sec, cs) && !LEXLT(TR(self, gz_j - 1).prev_civil_sec, cs)) ? (RV.kind == KIND_REPEATED && RV.trans == (TR(self, gz_j - 1)).unix_time) : 1)
+__CPROVER_ensures((MT_MIDDLE(self, cs) && !LEXLT(TR(self, gz_j).prev_civil_sec, cs) && !LEXLT(TR(self, gz_j - 1).prev_civil_sec, cs)) ? ((Z)RV.pre == PRE_OF(TR(self, gz_j - 1), cs)) : 1)
+__CPROVER_ensures((MT_MIDDLE(self, cs) && !LEXLT(TR(self, gz_j).prev_civil_sec, cs) && !LEXLT(TR(self, gz_j - 1).prev_civil_sec, cs)) ? ((Z)RV.post == POST_OF(TR(self, gz_j - 1), cs)) : 1)
 __CPROVER_ensures((MT_MIDDLE(self, cs) && !LEXLT(TR(self, gz_j).prev_civil_sec, cs) && LEXLT(TR(self, gz_j - 1).prev_civil_sec, cs)) ? UNIQ_IS(RV, READ_IN(cs, TY(self, TR(self, gz_j - 1).type_index).utc_offset)) : 1)
 __CPROVER_assigns();
+
+
+/* ---- C10 (kernel): TimeLocal = MakeTime on a year of the recorded table, moved forward by c4_shift * 400 years, saturating at max() ----
+ * gz_mt (ghost) is the value the inner MakeTime call returned: the result has the same kind and each instant is that instant plus
+ * c4_shift * (seconds in 400 years), or exactly max() when that does not fit. */
+extern civil_lookup gz_mt;
+#define SATHI(v) ((v) > (Z)INT64_MAX ? (Z)INT64_MAX : (v))
+#define TL_FIELD(f, c4) (SATHI((Z)(f) + (Z)(c4) * P400))
+civil_lookup TimeLocal(const TimeZoneInfo* self, fields cs, year_t c4_shift)
+__CPROVER_requires(1)
+MT_REQUIRES(self, cs)
+__CPROVER_requires(-((Z)1 << 62) < (Z)self->last_year_ && self->last_year_ - 400 < cs.y && cs.y <= self->last_year_ && c4_shift >= 0)
+__CPROVER_ensures(RV.kind == gz_mt.kind)
+__CPROVER_ensures((Z)RV.pre == TL_FIELD(gz_mt.pre, c4_shift))
+__CPROVER_ensures((Z)RV.trans == TL_FIELD(gz_mt.trans, c4_shift))
+__CPROVER_ensures((Z)RV.post == TL_FIELD(gz_mt.post, c4_shift))
+__CPROVER_assigns(gz_mt);
 
 #pragma CPROVER check pop
